@@ -32,6 +32,14 @@ func RichProfile() GenProfile {
 		MaxFieldsPerDoc: 5, MaxToksPerField: 5, Composite: true, DupIDs: true}
 }
 
+// MergeyProfile: few field names and terms, so that the segments of a merge overlap heavily while
+// their per-batch doc-value / term-vector plans differ.
+func MergeyProfile() GenProfile {
+	return GenProfile{MinDocs: 1, MaxDocs: 6, FieldPool: []string{"a", "b", "c", "é"},
+		TermPool:        []string{"", "a", "ab", "b", "x", "y", "café", "zz"},
+		MaxFieldsPerDoc: 4, MaxToksPerField: 4, Composite: true, DupIDs: true}
+}
+
 func LeanProfile() GenProfile {
 	return GenProfile{MinDocs: 1100, MaxDocs: 2200, FieldPool: []string{"f", "g"},
 		TermPool: []string{"w0", "w1", "w2", "w3", "w4", "w5"}, MaxFieldsPerDoc: 2, MaxToksPerField: 3, Lean: true}
@@ -167,6 +175,15 @@ func GenBatch(r *rand.Rand, p *GenProfile, idBase int) []Doc {
 		}
 		pool = pool[:k]
 	}
+	if p.Lean {
+		// a batch-level subset of the terms, so that a term may be missing from some segments of a merge
+		tp := append([]string(nil), p.TermPool...)
+		r.Shuffle(len(tp), func(i, j int) { tp[i], tp[j] = tp[j], tp[i] })
+		k := 3 + r.Intn(len(tp)-2)
+		cp := *p
+		cp.TermPool = tp[:k]
+		p = &cp
+	}
 	docs := make([]Doc, n)
 	for i := range docs {
 		id := B(fmt.Sprintf("d%05d", idBase+i))
@@ -216,6 +233,21 @@ func GenBatch(r *rand.Rand, p *GenProfile, idBase int) []Doc {
 				}
 			}
 			d.Fields = append(d.Fields, fi)
+		}
+		if p.StoredHeavy && r.Intn(3) == 0 {
+			// an array field: many stored values of one name, each with its array positions
+			name := pool[r.Intn(len(pool))]
+			names = append(names, name)
+			k := 4 + r.Intn(9)
+			for a := 0; a < k; a++ {
+				fi := FieldInst{Name: B(name), Typ: int('t'), Stored: true, Value: randBytes(r, r.Intn(6)), AP: Ints{a}}
+				if r.Intn(3) == 0 {
+					fi.AP = Ints{a, r.Intn(50), r.Intn(5)}
+				}
+				fi.Toks, fi.Len = genToks(r, p, plan.tv[name], nil)
+				fi.DV = plan.dv[name]
+				d.Fields = append(d.Fields, fi)
+			}
 		}
 		// the _id field at a random position
 		pos := r.Intn(len(d.Fields) + 1)
